@@ -1,6 +1,7 @@
-(* Stage B assembled: for straight-line programs over top-level variables - declarations, assignments, expression
-   statements, any number, any scalar expressions over the variables declared so far - compiling with the compiler
-   model and running the result on the VM model gives what the reference semantics gives. *)
+(* Stages B and C assembled: for programs over top-level variables - declarations, assignments, expression statements
+   and conditionals with assignment / expression branches, any number, any scalar expressions over the variables
+   declared so far - compiling with the compiler model and running the result on the VM model gives what the
+   reference semantics gives. *)
 From Coq Require Import List ZArith NArith Bool Arith Lia.
 Require Import RV.model.Syntax RV.model.Compiler RV.model.VM RV.model.ScalarFrag RV.model.VarProg.
 Require Import RV.proofs.VMScalarProofs RV.proofs.VarProgFacts RV.proofs.VarCompileProofs RV.proofs.VarVMProofs.
@@ -22,7 +23,7 @@ Proof. revert i; induction l as [|x l IH]; intros [|i] H; cbn in *; try discrimi
 Lemma max_need_pos l : l <> [] -> 1 <= max_need l.
 Proof.
   destruct l as [|s r]; [contradiction|]. intros _. rewrite max_need_cons.
-  pose proof (VarVMProofs.need_pos (stmt_exp s)). lia.
+  pose proof (VarVMProofs.stmt_need_pos s). lia.
 Qed.
 
 Section Names.
@@ -45,7 +46,7 @@ Section Names.
                   globals := [] ++ repeat VGoNil (ng - length (@nil value)); trace := [] |}).
     assert (Hinv : vm_inv [] (ndecls l) s0).
     { split; [cbn [length Nat.add globals s0 app]; rewrite repeat_length; cbn; lia|]. intros i Hi. cbn in Hi. lia. }
-    destruct (vm_prog tabs c 0 [0] [] [] true l [] s0 0 0 [] [] VNil Hne eq_refl Hinv Hwf) as [n [s' Hr]].
+    destruct (vm_prog tabs c 0 [0] [] [] true l [] s0 0 [] [] VNil Hne Hinv Hwf) as [n [s' Hr]].
     - cbn [code_instr c app]. rewrite app_nil_r. reflexivity.
     - intros i kk Hi. cbn [code_consts c Nat.add]. apply nth_of_nth_error. exact Hi.
     - cbn [Nat.add]. exact Hn.
@@ -65,7 +66,7 @@ Section Names.
   Proof.
     intros l Hne Hwf Hd Hn. eexists. eexists.
     split; [exact (compile_var_program names names_nodup l (max_height l) Hne Hd Hwf (le_n _))|].
-    intros ng Hng. destruct (run_var_program l [root_tb names (ndecls l)] ng Hne Hwf Hng Hn) as [n [s' Hr]].
+    intros ng Hng. destruct (run_var_program l (root_tb names (ndecls l) (nblocks l) :: blocks (nblocks l)) ng Hne Hwf Hng Hn) as [n [s' Hr]].
     exists n. intros f fs Hfs. exists (run_stmts [] l VNil). split.
     - destruct fs as [|fs]; [lia|].
       exact (VarSemProofs.sem_var_program names names_nodup names_nonempty l fs Hwf Hd ltac:(lia)).
